@@ -3,7 +3,7 @@
    agent 1 starting on 3; node 2 is the one utility node - every 5-node instance with that ownership pattern is
    a relabelling of one of these).  Init ranges over EVERY connected simple graph on the 5 nodes whose edge
    count lies in MinEdges..MaxEdges (all 728 of them for 4..10) - a superset of what the split generator can
-   return.  Next plays every joint action (legal or not, also after termination; with LegalOnly = TRUE only joint
+   return - or, with Sample = TRUE (quick run), over seven hand-picked graphs.  Next plays every joint action (legal or not, also after termination; with LegalOnly = TRUE only joint
    actions in which every agent that has a legal node picks one) and every outcome of the tie-break.
    Without a time limit in reach (tl = NoLimit) the step counter is hidden by the VIEW and the whole game graph
    is visited; the time limits in Limits are played out with the true counter, one step beyond the limit, on two graphs. *)
